@@ -12,7 +12,7 @@ REAL = ['onl.sim.core.Environment', 'onl.sim.events.Event/Timeout/Process/Initia
 STUBS = ['process bodies and plain callbacks are harness code']
 ASSUMPTIONS = ['registration order of process waiters is the G order of the bodies\' "about to yield" logs',
                'no condition events in C02 programs (C05 owns them)']
-PROBES = ['chained_trigger', 'driven_by_run_until_event', 'until_event_failed', 'event_ge3_waiters', 'failed_mixed_handling', 'reyield_processed_failed', 'child_failure_no_joiner',
+PROBES = ['conditions_among_waiters', 'chained_trigger', 'driven_by_run_until_event', 'until_event_failed', 'event_ge3_waiters', 'failed_mixed_handling', 'reyield_processed_failed', 'child_failure_no_joiner',
           'double_trigger', 'detached_by_interrupt', 'unhandled_escape', 'reyield_processed_ok']
 
 
@@ -34,6 +34,9 @@ def gen(rng, tier):
     w['raise'] = rng.choice([0, 1, 2])
     w['ret'] = rng.choice([0, 1, 2])
     w['addcb'] = rng.choice([0, 1, 2])
+    # conditions are waiters too: a failing operand that its condition no longer watches must still escape
+    w['cond'] = rng.choice([0, 0, 1, 2])
+    prof.depth = rng.choice([0, 1])
     prof.top_cbs = rng.choice([0, 1, 3])
     prof.handlers = rng.choice([['cont', 'rewait', 'ret', 'other', 'raise', 'none'],
                                 ['cont', 'cont', 'rewait', 'none'], ['none', 'cont']])
@@ -306,7 +309,14 @@ def run(case):
             ok, val = None, '<unavailable>'
         final[pid] = (alive, ok, val)
     quiescent = env.peek() == float('inf') and steps < 4000
-    viol, stats, nontrivial = check(env.log, _values(case), final, quiescent)
+    ch = None
+    if any(r[0] == 'K' for r in env.log):
+        # how a condition treats the failure of an operand (handled / unhandled / lenient) comes from the C05 model
+        from . import c05
+        _v5, _s5, _nt5, ch = c05.check(env.log, case, [])
+    viol, stats, nontrivial = check(env.log, _values(case), final, quiescent, cond_handling=ch)
+    if ch is not None:
+        stats['conditions_among_waiters'] = 1
     res = {'viol': viol, 'digest': digest_of(env.log), 'nontrivial': nontrivial, 'stats': stats,
            'simtime': float(env.now) - float(case.get('t0', 0)), 'steps': steps}
     if case.get('_excerpt'):
